@@ -142,6 +142,11 @@ pub fn read_client_log(sim: &mut Sim, i: usize) {
             sim.fail("C05.kind", format!("kind mismatch for server event {seq}"));
         }
         if sim.or.ev_tick {
+            // the gate compares event ticks with the client's update tick: that tick must be one the server really sent to
+            // this client in this session (or the initial 0)
+            if tick_at != 0 && !sim.upd_sent[i].contains(&tick_at) {
+                sim.fail("C04.stale_update_tick", format!("client {i} handed event {seq} to game logic while its update tick {tick_at} is not a tick of an update message of this session"));
+            }
             if em.kind != SK::Ind {
                 match em.req_tick[i] {
                     Some(r) => {
